@@ -106,6 +106,10 @@ def main():
     def play(mods, op, idx):
         def run_once():
             fields = [build(mods, e) for e in op["fields"]]
+            send(fields)
+            send(fields)      # the same field objects once more: must give the same request
+
+        def send(fields):
             Client = mods["pkg"].Client
             name = f"Op{idx}"
             if job["async"]:
@@ -128,11 +132,12 @@ def main():
                 out.setdefault("name_errors", []).append(str(e))
                 inject()
                 return None      # the caller restarts the whole history with the injection in place
-            if len(captured) != n0 + 1:
+            if len(captured) != n0 + 2:
                 return {"exc": "NoRequest", "msg": f"{len(captured) - n0} requests"}
-            r = captured[-1]
+            r, again = captured[-2], captured[-1]
             return {"ok": True, "query": r.get("query"), "variables": r.get("variables"),
-                    "operationName": r.get("operationName")}
+                    "operationName": r.get("operationName"), "reuse_same": r == again,
+                    "again": None if r == again else again}
         except Exception as e:  # noqa
             return {"exc": type(e).__name__, "msg": str(e)[:300]}
 
